@@ -585,6 +585,22 @@ pub fn explore<T>(
     cfg: &Config,
     bound: Option<u32>,
     max_executions: u64,
+    f: impl FnMut() -> T,
+    on_exec: impl FnMut(std::thread::Result<T>, &Trace) -> bool,
+) -> ExploreStats {
+    explore_from(cfg, bound, max_executions, 0, f, on_exec)
+}
+
+/// Like `explore`, but only decisions with index >= `branch_from` may deviate from the default
+/// choice (the first `branch_from` decisions of every execution are the default ones).  For
+/// executions with tens of thousands of decisions of which only a tail window is of interest; the
+/// enumeration is complete *within the window* below the bound, and says nothing about deviations
+/// before it.
+pub fn explore_from<T>(
+    cfg: &Config,
+    bound: Option<u32>,
+    max_executions: u64,
+    branch_from: usize,
     mut f: impl FnMut() -> T,
     mut on_exec: impl FnMut(std::thread::Result<T>, &Trace) -> bool,
 ) -> ExploreStats {
@@ -605,7 +621,7 @@ pub fn explore<T>(
         let mut cost = 0u32;
         let mut children: Vec<Vec<u32>> = vec![];
         for (i, d) in tr.decisions.iter().enumerate() {
-            if i >= prefix.len() {
+            if i >= prefix.len() && i >= branch_from {
                 for alt in 1..d.alts {
                     let c = cost + if d.free { 0 } else { 1 };
                     if let Some(b) = bound {
